@@ -33,3 +33,21 @@ Lemma c16_table_covers_maps :
           ["localAuthData"; "vipPushCookie"; "pendingOauth2"; "totpLocalRateLimit"] = true.
 Proof. vm_compute. reflexivity. Qed.
 Goal True. idtac "@@OBL c16_table_covers_maps". Abort.
+
+(* ---- fields of RuntimeState written after start-up (Signer, KeymasterPublicKeys, ...): table shared_field_writes *)
+(* every write is made with a mutex held (lexically or at every call site on the way from a handler
+   or goroutine), or belongs to configuration loading before any listener exists *)
+Lemma c16_field_writes_locked : forallb row_ok shared_field_writes = true.
+Proof. vm_compute. reflexivity. Qed.
+Goal True. idtac "@@OBL c16_field_writes_locked". Abort.
+
+Lemma c16_one_mutex_per_field : forallb (fun a => forallb (same_guard a) shared_field_writes) shared_field_writes = true.
+Proof. vm_compute. reflexivity. Qed.
+Goal True. idtac "@@OBL c16_one_mutex_per_field". Abort.
+
+(* the walker saw the unseal path: the signer and the published key list are written under a mutex *)
+Lemma c16_field_table_covers :
+  forallb (fun m => existsb (fun r => String.eqb (r_map r) m && String.eqb (r_class r) "locked") shared_field_writes)
+          ["Signer"; "KeymasterPublicKeys"] = true.
+Proof. vm_compute. reflexivity. Qed.
+Goal True. idtac "@@OBL c16_field_table_covers". Abort.
